@@ -1,0 +1,49 @@
+//! Verification-only thin wrapper (g4, property C21: revertible operations).
+//! No logic of its own: it plumbs `RevertibleMarket::new`,
+//! `RevertibleLiquidityMarket::from_revertible_market`, `enable_mint` / `enable_burn` and
+//! `Revertible::commit` together exactly as the deposit / withdrawal operations do, and lets a
+//! closure use the market in between.  Compiled only with `--cfg gmsol_verif`.
+use anchor_lang::prelude::*;
+use anchor_spl::token::Mint;
+
+use crate::{
+    events::EventEmitter,
+    states::{
+        market::revertible::{
+            liquidity_market::RevertibleLiquidityMarket, market::RevertibleMarket, Revertible,
+        },
+        Market, Store,
+    },
+};
+
+/// Creates a [`RevertibleLiquidityMarket`] (virtual inventories disabled), optionally enables
+/// mint / burn, hands it to `f`, and commits it when asked (otherwise it is dropped).
+#[allow(clippy::too_many_arguments)]
+pub fn with_revertible_liquidity_market_commit<'a, 'info, R>(
+    market: &'a AccountLoader<'info, Market>,
+    market_token: &'a Account<'info, Mint>,
+    token_program: &'a AccountInfo<'info>,
+    store: &'a AccountLoader<'info, Store>,
+    receiver: Option<&'a AccountInfo<'info>>,
+    vault: Option<&'a AccountInfo<'info>>,
+    event_authority: &'a AccountInfo<'info>,
+    event_authority_bump: u8,
+    commit: bool,
+    f: impl FnOnce(&mut RevertibleLiquidityMarket<'a, 'info>) -> R,
+) -> Result<R> {
+    let event_emitter = EventEmitter::new(event_authority, event_authority_bump);
+    let market = RevertibleMarket::new(market, None, event_emitter)?;
+    let mut market =
+        RevertibleLiquidityMarket::from_revertible_market(market, market_token, token_program, store)?;
+    if let Some(receiver) = receiver {
+        market = market.enable_mint(receiver);
+    }
+    if let Some(vault) = vault {
+        market = market.enable_burn(vault);
+    }
+    let output = f(&mut market);
+    if commit {
+        market.commit();
+    }
+    Ok(output)
+}
